@@ -17,7 +17,7 @@ From Coq Require Import Reals Lra Psatz Arith Lia FunctionalExtensionality.
 From Coquelicot Require Import Coquelicot.
 From mathcomp Require Import all_ssreflect all_fingroup all_algebra.
 From LV Require Import Lib.RBase Lib.MxAux Lib.RStruct Lib.RMxDeriv Gen.GenGP Gen.GenAcq Gen.GenCovariance Proofs.Covariance Proofs.CovarianceGrad
-                       Proofs.GP Proofs.LogLikFull.
+                       Proofs.GP Proofs.LogLikFull Proofs.HandIR.
 Set Implicit Arguments. Unset Strict Implicit. Unset Printing Implicit Defensive.
 Import GRing.Theory.
 Local Open Scope ring_scope.
@@ -295,6 +295,25 @@ Proof.
   have := @loglik_noise_grad_log_domain n p nh chol noise y Pmx s al (dKfun theta) h Kt HK Hc Hu'.
   by rewrite -He Kt_at.
 Qed.
+(* the same two statements about the TRANSLATED per-hyperparameter loops of compute_grad_log_likelihood (Gen.GenAcq.LogLikGrad.grad_linear /
+   grad_logdom, equal to the hand-written form by Proofs/HandIR.v); hyp is the hyperparameter vector the loop reads its log_scaling from *)
+Theorem loglik_grad_kernel_linear_loop (hyp : nat -> R) :
+  locally (theta h) (fun t => let K := GPNoise.kernel_matrix (Kt t) noise in chol_ok (chol K) K) ->
+  GPNoise.PT_K_inv_P (Kfun theta) noise Pmx \in unitmx ->
+  is_derive (fun t => LogLik.log_likelihood_value chol (@sumlogdiag n) (GPNoise.kernel_matrix (Kt t) noise)
+                        (GPNoise.demeaned_y (Kt t) noise y Pmx) (GPNoise.K_inv_demeaned_y (Kt t) noise y Pmx) s) (theta h)
+    (LogLikGrad.grad_linear n nh (cvv (GPNoise.K_inv_demeaned_y (Kfun theta) noise y Pmx)) tensor s hyp
+                            (mxv (invmx (GPNoise.kernel_matrix (Kfun theta) noise))) h).
+Proof. move=> Hc Hu. rewrite -loglik_grad_hand_is_translated_linear. exact: loglik_grad_kernel. Qed.
+
+Theorem loglik_grad_kernel_logdom_loop (hyp : nat -> R) : theta h = exp (hyp h) ->
+  locally (exp (hyp h)) (fun t => let K := GPNoise.kernel_matrix (Kt t) noise in chol_ok (chol K) K) ->
+  GPNoise.PT_K_inv_P (Kfun theta) noise Pmx \in unitmx ->
+  is_derive (fun u => LogLik.log_likelihood_value chol (@sumlogdiag n) (GPNoise.kernel_matrix (Kt (exp u)) noise)
+                        (GPNoise.demeaned_y (Kt (exp u)) noise y Pmx) (GPNoise.K_inv_demeaned_y (Kt (exp u)) noise y Pmx) s) (hyp h)
+    (LogLikGrad.grad_logdom n nh (cvv (GPNoise.K_inv_demeaned_y (Kfun theta) noise y Pmx)) tensor s hyp
+                            (mxv (invmx (GPNoise.kernel_matrix (Kfun theta) noise))) h).
+Proof. move=> He Hc Hu. rewrite -loglik_grad_hand_is_translated_logdom. exact: (loglik_grad_kernel_log_domain He Hc Hu). Qed.
 End Kernel.
 
 (* ------------------------------------------------------------------ the hypotheses are satisfiable (SquareExponential): one observation in
